@@ -141,13 +141,23 @@ static bool handle_ffi_req(int in_fd, uint32_t payload_len) {
         if (result_len > 0) {
             cop_send(STDOUT_FILENO, COP_MSG_FFI_RESULT, stack_buf, result_len);
         } else {
-            /* Stack buffer too small — retry with a larger heap buffer */
+            /* Stack buffer too small — retry with growing heap buffers */
             uint32_t big_size = 1024 * 1024;  /* 1 MB */
             uint8_t *big_buf = malloc(big_size);
-            if (big_buf) {
-                result_len = cop_serialize_value(&result, big_buf, big_size);
+            while (big_buf &&
+                   (result_len = cop_serialize_value(&result, big_buf, big_size)) == 0 &&
+                   big_size < COP_MAX_PAYLOAD) {
+                free(big_buf);
+                big_size *= 2;
+                big_buf = malloc(big_size);
+            }
+            if (big_buf && result_len > 0) {
                 cop_send(STDOUT_FILENO, COP_MSG_FFI_RESULT, big_buf, result_len);
                 free(big_buf);
+            } else if (big_buf) {
+                free(big_buf);
+                cop_send(STDOUT_FILENO, COP_MSG_FFI_ERROR,
+                         "result too large for FFI payload", 32);
             } else {
                 cop_send(STDOUT_FILENO, COP_MSG_FFI_ERROR,
                          "OOM serializing result", 22);
